@@ -1,7 +1,36 @@
 (* Props/C13.v — property C13: every decoding and encoding route gives the same answer.
-   Statements only; proofs in Proofs/Routes*.v.  Level: the TOML value tree (see Props/C07.v). *)
-From TV Require Import Base.Prelude Spec.SerdeData Model.Ser Model.De Model.SerdeRoutes Proofs.RoutesRefuted.
+   Statements only; proofs in Proofs/Routes*.v (on top of the C07 development, Proofs/SerdeRT*.v).
 
+   Level: the TOML value tree.  A decoding route is a function of (type, tree the text parses to)
+   (Model/SerdeRoutes.v `decode`); which tree a text parses to, and that from_str / from_slice /
+   from_document / Deserializer::from_str hand the SAME tree to toml_edit's deserializer, is below this
+   level (C01-C03; compared on the implementation by lib/props/c13.py on every run).
+     edit family   t e esl edoc eim efs tvd evd : de_value
+     value family  tval tvdval : to_toml_value then tv_de;   ttab : to_toml_table then tv_de *)
+From TV Require Import Base.Prelude Model.Datetime Model.SerNum Spec.SerdeData Model.Ser Model.De Model.SerdeRoutes
+  Proofs.RoutesRefuted Proofs.RoutesConv Proofs.RoutesTwins Proofs.RoutesTop Proofs.RoutesDecode Extract.Show.
+Require Import String.
+
+(* ---- all decoding routes yield equal results whenever they succeed ----
+   twin_ty: no map keyed by `char` (the model's strings are arbitrary bytes; on ill-formed UTF-8 two keys
+   could decode to one char).  plain_root: needed only where str::parse::<toml::Table> is involved — the
+   root is a table with distinct keys not starting with the private tunnel key. *)
+Theorem C13_twin_deserializers : forall ty x y v1 v2,
+  twin_ty ty = true -> to_toml_value x = Ok y -> de_value ty x = Ok v1 -> tv_de ty y = Ok v2 -> sval_eq v1 v2.
+Proof. intros ty x y v1 v2 H. exact (twins_agree ty H x y v1 v2). Qed.
+Print Assumptions C13_twin_deserializers.
+
+Theorem C13_decode_routes : forall ty x r1 r2 v1 v2,
+  twin_ty ty = true ->
+  (uses_table_route r1 = true \/ uses_table_route r2 = true -> plain_root x = true) ->
+  decode r1 ty x = Ok v1 -> decode r2 ty x = Ok v2 -> sval_eq v1 v2 \/ sval_eq v2 v1.
+Proof. exact decode_routes_agree. Qed.
+Print Assumptions C13_decode_routes.
+
+(* ---- on text obtained by serializing a value of the target type every route succeeds and returns it ----
+   The full statement (every route, every type) is FALSE of the code, for two recorded reasons:
+   C13-tryinto-datetime-string (routes through toml::Value / toml::Table fail on date-times) and
+   C13-valueser-root-tuple-variant (toml::ser::ValueSerializer drops the name of a tuple variant at the root). *)
 Theorem C13_on_serialized_refuted :
   exists t v out,
     has_type v t /\ ser_toml_root t v = Ok out
@@ -11,9 +40,89 @@ Theorem C13_on_serialized_refuted :
 Proof. exact on_serialized_refuted. Qed.
 Print Assumptions C13_on_serialized_refuted.
 
+Theorem C13_on_serialized_value_refuted :
+  exists t v x,
+    has_type v t /\ root_tuple_variant t v /\ ser_value_text t v = Ok x
+    /\ x = VArr [VInt 1; VInt 2]
+    /\ ser_value t v = Ok (VTab [(str "T", x)])
+    /\ decode R_tvd t x = Err EDe /\ decode R_evd t x = Err EDe /\ decode R_tvdval t x = Err EDe.
+Proof. exact on_serialized_value_refuted. Qed.
+Print Assumptions C13_on_serialized_value_refuted.
+
+(* what holds: on the document toml::to_string writes, every toml_edit-based route returns the value —
+   for every type; the routes through toml::Value / toml::Table too when the document shows no
+   date-time and no private key *)
+Theorem C13_on_serialized_partial : forall ty v out, has_type v ty -> ser_toml_root ty v = Ok out ->
+  (forall r, edit_family r = true -> exists v', decode r ty out = Ok v' /\ sval_eq v v')
+  /\ (tunnel_free out = true ->
+      forall r, r = R_tval \/ r = R_ttab -> exists v', decode r ty out = Ok v' /\ sval_eq v v').
+Proof. exact on_serialized_doc. Qed.
+Print Assumptions C13_on_serialized_partial.
+
+(* ... and on the text of a single value (toml::ser::ValueSerializer), unless the root is a tuple variant *)
+Theorem C13_on_serialized_value_partial : forall ty v x,
+  has_type v ty -> ser_value_text ty v = Ok x -> ~ root_tuple_variant ty v ->
+  (forall r, r = R_tvd \/ r = R_evd -> exists v', decode r ty x = Ok v' /\ sval_eq v v')
+  /\ (tunnel_free x = true -> exists v', decode R_tvdval ty x = Ok v' /\ sval_eq v v').
+Proof. exact on_serialized_value. Qed.
+Print Assumptions C13_on_serialized_value_partial.
+
+(* ---- Value::try_from / Table::try_from against serialize-then-parse ----
+   "for every type including those containing date-times" is FALSE (C13-tryfrom-datetime-table). *)
 Theorem C13_try_from_refuted :
   exists t v out y y',
     has_type v t /\ ser_toml_root t v = Ok out /\ to_toml_value out = Ok y
     /\ tv_ser t v = Ok y' /\ tv_ser_table t v = Ok y' /\ y <> y'.
 Proof. exact try_from_refuted. Qed.
 Print Assumptions C13_try_from_refuted.
+
+(* what holds: the same tree (same key order) when the serialized document shows no date-time and
+   no private key *)
+Theorem C13_try_from_partial : forall ty v out,
+  has_type v ty -> ser_toml_root ty v = Ok out -> tunnel_free out = true ->
+  exists y, to_toml_value out = Ok y /\ to_toml_table out = Ok y /\ tv_ser ty v = Ok y
+            /\ (forall y', tv_ser_table ty v = Ok y' -> y' = y).
+Proof. exact try_from_is_parsed_text. Qed.
+Print Assumptions C13_try_from_partial.
+
+(* the twin serializers below the root: ValueSerializer's tree, read as a toml::Value, is Value::try_from's *)
+Theorem C13_twin_serializers : forall ty v x,
+  has_type v ty -> ser_value ty v = Ok x -> tunnel_free x = true ->
+  exists y, to_toml_value x = Ok y /\ tv_ser ty v = Ok y.
+Proof. intros ty v x. exact (try_from_twin ty v x). Qed.
+Print Assumptions C13_twin_serializers.
+
+(* ---- non-vacuity ---- *)
+(* struct Cfg { m: BTreeMap<String, Vec<En>>, o: Option<Point>, t: En, w: Wrap(u8), c: char }   (no date-time) *)
+Definition ex_en : ty :=
+  TEnum (str "En") [(str "U", VUnit); (str "N", VNewtype (TInt TI64)); (str "T", VTuple [TBool; TStr]);
+                    (str "S", VStruct [(str "a", TOpt (TInt TI32)); (str "b", TInt TU64)])].
+Definition ex_point : ty := TStruct (str "Point") [(str "y", TInt TI32); (str "x", TInt TI32)].
+Definition ex_ty : ty :=
+  TStruct (str "Cfg") [(str "m", TMap TStr (TSeq ex_en)); (str "o", TOpt ex_point); (str "t", ex_en);
+                       (str "w", TNewtype (str "Wrap") (TInt TU8)); (str "c", TChar)].
+Definition ex_val : sval :=
+  SRec [SMap [(SStr (str "k2"), SSeq [SVariant 0 SUnit; SVariant 3 (SRec [SNone; SInt 7])]); (SStr (str "k1"), SSeq [])];
+        SSome (SRec [SInt 1; SInt (-2)]); SVariant 2 (SSeq [SBool true; SStr (str "x y")]); SNewtype (SInt 255); SChar 233].
+
+Example C13_ex_hyps : has_type ex_val ex_ty /\ twin_ty ex_ty = true
+  /\ match ser_toml_root ex_ty ex_val with Ok out => tunnel_free out && plain_root out | Err _ => false end = true.
+Proof. repeat split; vm_compute; reflexivity. Qed.
+
+(* the document order is m (k2, k1), o (y, x), t, w, c; the toml::Value is sorted; both families read it back
+   (the table route returns the map in key order: equal up to the order of map entries) *)
+Definition ex_val_sorted : sval :=
+  SRec [SMap [(SStr (str "k1"), SSeq []); (SStr (str "k2"), SSeq [SVariant 0 SUnit; SVariant 3 (SRec [SNone; SInt 7])])];
+        SSome (SRec [SInt 1; SInt (-2)]); SVariant 2 (SSeq [SBool true; SStr (str "x y")]); SNewtype (SInt 255); SChar 233].
+Example C13_ex_routes :
+  exists out, ser_toml_root ex_ty ex_val = Ok out
+    /\ decode R_t ex_ty out = Ok ex_val /\ decode R_tval ex_ty out = Ok ex_val_sorted /\ decode R_ttab ex_ty out = Ok ex_val_sorted
+    /\ to_toml_value out = tv_ser ex_ty ex_val /\ to_toml_table out = tv_ser_table ex_ty ex_val.
+Proof. eexists. split; [vm_compute; reflexivity|]. repeat split; vm_compute; reflexivity. Qed.
+
+(* a mismatching pair: a 3-element array read as a pair — toml_edit's family accepts and ignores the
+   rest, toml::Value's refuses; they never succeed with different answers *)
+Example C13_ex_disagree_on_success_only :
+  decode R_e (TTuple [TInt TI8; TInt TI8]) (VArr [VInt 1; VInt 2; VInt 3]) = Ok (SSeq [SInt 1; SInt 2])
+  /\ decode R_tvdval (TTuple [TInt TI8; TInt TI8]) (VArr [VInt 1; VInt 2; VInt 3]) = Err EDe.
+Proof. split; vm_compute; reflexivity. Qed.
